@@ -173,6 +173,10 @@ pub enum COp {
     /// write forever in chunks (until the reader goes away)
     Flood { to: u8, chunk: u32 },
     Exit,
+    /// a multiplexing child (select loop): reads stdin whenever it has data,
+    /// otherwise writes generated bytes to `to`; ends at end-of-file on stdin
+    /// or once `need` bytes (when non-zero) have arrived
+    FloodUntilInput { to: u8, chunk: u32, need: u32 },
 }
 
 #[derive(Clone, Copy, Debug, PartialEq, Eq, Serialize, Deserialize)]
@@ -209,6 +213,8 @@ pub enum ChildState {
     Runnable,
     BlockedRead,
     BlockedWrite(u8),
+    /// select(): waiting for stdin readable or stream writable
+    BlockedRW(u8),
     Sleeping(i64),
     Done,
 }
@@ -283,7 +289,8 @@ pub struct Sim {
     pub cstate: ChildState,
     carry: Vec<u8>,   // bytes to write for Copy/Cat
     carry_to: u8,
-    wrem: u64,        // remaining bytes of a Write op in progress
+    wrem: u64,
+    flood_rx: u64,        // remaining bytes of a Write op in progress
     in_op: bool,      // current op has started
     pub child_open: [bool; 3],
     pub wrote: [Vec<u8>; 3], // index 1, 2 used
@@ -335,6 +342,7 @@ impl Sim {
             carry: vec![],
             carry_to: 1,
             wrem: 0,
+            flood_rx: 0,
             in_op: false,
             child_open: [true; 3],
             wrote: [vec![], vec![], vec![]],
@@ -624,6 +632,45 @@ impl Sim {
                     }
                 }
             }
+            COp::FloodUntilInput { to, chunk, need } => {
+                let t = to as usize % 3;
+                let in_ready = match self.pipes[0].as_ref() {
+                    None => true,
+                    Some(p) => !self.child_open[0] || p.len() > 0 || !p.writer_open,
+                };
+                let can_write = t != 0 && self.child_open[t] && self.pipes[t].is_some();
+                if in_ready {
+                    match self.child_do_read(chunk.max(1) as usize) {
+                        Some(v) => {
+                            self.flood_rx += v.len() as u64;
+                            if v.is_empty() || (need > 0 && self.flood_rx >= need as u64) {
+                                advance = true;
+                            }
+                        }
+                        None => {
+                            self.cstate = ChildState::BlockedRead;
+                            return false;
+                        }
+                    }
+                } else if !can_write {
+                    self.cstate = ChildState::BlockedRead;
+                    return false;
+                } else {
+                    if self.wrem == 0 {
+                        self.wrem = chunk.max(1) as u64;
+                    }
+                    let before = self.wrem;
+                    match self.child_push_gen(t) {
+                        Ok(_) => {
+                            if self.wrem == before {
+                                self.cstate = ChildState::BlockedRW(to % 3);
+                                return false;
+                            }
+                        }
+                        Err(()) => return self.child_die_sigpipe(),
+                    }
+                }
+            }
             COp::Close(s) => {
                 self.child_close(s as usize % 3);
                 advance = true;
@@ -642,6 +689,7 @@ impl Sim {
             self.in_op = false;
             self.carry.clear();
             self.wrem = 0;
+            self.flood_rx = 0;
             if self.pc >= self.cfg.script.len() {
                 self.child_finish();
             }
@@ -668,6 +716,19 @@ impl Sim {
                     Some(p) => !p.reader_open || p.accept_now(n.max(1)) > 0,
                 };
                 if ok {
+                    self.cstate = ChildState::Runnable;
+                }
+            }
+            ChildState::BlockedRW(to) => {
+                let rd = match self.pipes[0].as_ref() {
+                    None => true,
+                    Some(p) => p.len() > 0 || !p.writer_open,
+                };
+                let wr = match self.pipes[to as usize].as_ref() {
+                    None => true,
+                    Some(p) => !p.reader_open || p.accept_now((self.wrem as usize).max(1)) > 0,
+                };
+                if rd || wr {
                     self.cstate = ChildState::Runnable;
                 }
             }
